@@ -414,3 +414,72 @@ pub fn decode_fuzz_input(data: &[u8]) -> Option<(SessionCfg, Vec<Op>)> {
     }
     Some((cfg, ops))
 }
+
+
+// ------------------------------------------------------------------ array buffers and the default builder
+
+fn lean_arrays<const N: usize, const M: usize>(ops: &[Op], default_builder: bool) -> Result<usize, String> {
+    use crate::sink::{MonSink, SinkErr};
+    use embedded_cli::cli::CliBuilder;
+    use embedded_cli::command::RawCommand;
+    let sink = MonSink::new();
+    let mut proc = RecProc::new(vec![HAction { writes: vec![WCall { kind: WKind::Str, text: "ok".into() }], set_prompt: None, fail: false }], None);
+    macro_rules! drive {
+        ($cli:expr) => {{
+            let mut cli = $cli;
+            for (i, op) in ops.iter().enumerate() {
+                let r: Result<(), SinkErr> = match op {
+                    Op::Byte(b) => cli.process_byte::<RawCommand<'_>, _>(*b, &mut proc),
+                    Op::Write(c) => cli.write(|w| do_writes(w, c)),
+                    Op::SetPrompt(p) => cli.set_prompt(PROMPTS[*p]),
+                };
+                if let Err(e) = r {
+                    return Err(format!("op {} returned {:?}", i, e));
+                }
+                if i % 8 == 7 || i + 1 == ops.len() {
+                    let (buf, valid, cursor) = cli.verif_editor().ok_or("editor missing")?;
+                    let ed = EdState { line: buf[..valid.min(buf.len())].to_vec(), valid, cursor, buflen: buf.len() };
+                    if let Err((c, w)) = check_invariants(&ed, None) {
+                        return Err(format!("invariant {} after op {}: {}", c, i, w));
+                    }
+                }
+                proc.log.clear();
+            }
+        }};
+    }
+    if default_builder {
+        // CliBuilder::default(): [u8; 40] command buffer, [u8; 100] history buffer, prompt "$ "
+        drive!(CliBuilder::default().writer(sink.clone()).build().map_err(|e| format!("build: {:?}", e))?);
+    } else {
+        drive!(CliBuilder::default().writer(sink.clone()).command_buffer([0u8; N]).history_buffer([0u8; M]).prompt("#").build().map_err(|e| format!("build: {:?}", e))?);
+    }
+    let n = sink.0.borrow().bytes.len();
+    Ok(n)
+}
+
+/// the `[u8; N]` Buffer implementation and the builder defaults (every other workload lends `&mut [u8]`)
+pub fn run_arrays(args: &Args, rep: &mut Report) {
+    let total: u64 = if args.thorough { 200_000 } else { 16_000 };
+    let n = args.scaled(total) / args.nshards.max(1);
+    run_cases(args, "C03", n, rep, &mut |idx, rep| {
+        let mut rng = Rng::derive(args.seed ^ 0xA77A, args.shard, idx);
+        let (_cfg, ops) = gen_hostile(&mut rng, false);
+        let which = idx % 8;
+        let r = match which {
+            0 => lean_arrays::<0, 0>(&ops, false),
+            1 => lean_arrays::<1, 1>(&ops, false),
+            2 => lean_arrays::<2, 5>(&ops, false),
+            3 => lean_arrays::<5, 2>(&ops, false),
+            4 => lean_arrays::<8, 8>(&ops, false),
+            5 => lean_arrays::<40, 100>(&ops, false),
+            6 => lean_arrays::<17, 3>(&ops, false),
+            _ => lean_arrays::<0, 0>(&ops, true),
+        };
+        rep.evaluations += ops.len() as u64;
+        rep.count_n("c03.arrays.ops", ops.len() as u64);
+        rep.distinct.insert(hash_u64s(&[34, which, ops.len() as u64 / 16]));
+        if let Err(e) = r {
+            report(rep, args, "C03", "invariant", "array-buffers", idx, ops.len(), J::s(show_ops(&ops)), format!("array-buffer Cli (variant {}): {} [{}]", which, e, show_ops(&ops)));
+        }
+    });
+}
